@@ -50,6 +50,10 @@ pub fn stream_stats(file: &[u8], cuts: &[usize]) -> Result<StreamStats, String> 
                         if n == 0 {
                             zero_run += 1;
                             st.max_zero_run = st.max_zero_run.max(zero_run);
+                            if zero_run > 20_000 {
+                                st.err = "spin".into();
+                                break 'outer;
+                            }
                             if matches!(ev, png::Decoded::Nothing) && appended == 0 {
                                 st.zero_nothing += 1;
                                 if st.zero_nothing > 1000 {
@@ -194,6 +198,11 @@ fn special_files(rng: &mut Rng) -> Vec<corpus::TestFile> {
         cs.push(RawChunk::new(b"IEND", vec![]));
         out.push(mk(cs, "capacity-boundary"));
     }
+    // bytes after the end of the zlib stream: in the same IDAT, and in further IDAT chunks (tolerated, as libpng does)
+    let mut zt = z.clone();
+    zt.extend(rng.bytes(40));
+    out.push(mk(vec![ihdr(40, 30, 8, 2, 0), RawChunk::new(b"IDAT", zt), RawChunk::new(b"IEND", vec![])], "trailing-bytes-after-stream"));
+    out.push(mk(vec![ihdr(40, 30, 8, 2, 0), RawChunk::new(b"IDAT", z.clone()), RawChunk::new(b"IDAT", rng.bytes(100)), RawChunk::new(b"IDAT", vec![]), RawChunk::new(b"IDAT", rng.bytes(3)), RawChunk::new(b"IEND", vec![])], "trailing-idat-after-stream"));
     // deflate bomb: 8 MiB of zeros in a tiny stream, image header claims it
     let w = 4096u32;
     let h = 2048u32;
@@ -236,14 +245,16 @@ fn check(ctx: &mut Ctx, f: &corpus::TestFile, cuts: &[usize], sched: &str) {
             ctx.rep.count("update calls per 100 input bytes", &(match ratio { 0..=9 => "<10", 10..=49 => "10-49", 50..=99 => "50-99", 100..=149 => "100-149", _ => ">=150" }).to_string());
         }
     }
-    for path in 0..3u8 {
-        match reader_stats(&f.bytes, cuts, path, None) {
+    for (path, limit) in [(0u8, None), (1, None), (2, None), (0, Some(40_000usize)), (2, Some(70_000))] {
+        match reader_stats(&f.bytes, cuts, path, limit) {
             Err(p) => ctx.rep.violation("oracle", "reader/panic", &format!("Reader call panicked: {}", p), case().set("path", J::i(path))),
             Ok(st) => {
                 if st.fill_buf > 2 * st.bytes + 16 * (2 + st.frames) {
                     ctx.rep.violation("oracle", "reader/step-count", &format!("{} fill_buf calls for {} bytes consumed and {} frames (path {})", st.fill_buf, st.bytes, st.frames, path), case().set("path", J::i(path)));
                 }
-                if st.max_zero_consume_run > 6 {
+                if st.max_zero_consume_run > crate::iowrap::SPIN_LIMIT {
+                    ctx.rep.violation("oracle", "reader/spin", &format!("the reader was offered the same input more than {} times in a row without consuming a byte (path {}, limit {:?})", crate::iowrap::SPIN_LIMIT, path, limit), case().set("path", J::i(path)));
+                } else if st.max_zero_consume_run > 6 {
                     ctx.rep.violation("oracle", "reader/zero-consume-run", &format!("{} consecutive zero-byte consume() calls (path {})", st.max_zero_consume_run, path), case().set("path", J::i(path)));
                 }
                 ctx.rep.count("max zero-consume run", &st.max_zero_consume_run.to_string());
